@@ -59,7 +59,7 @@ class C02(Prop):
     thorough_budget = 30000
     quick_deadline_s = 100
     thorough_deadline_s = 800
-    all_branches = ["o:ok", "o:fail-ros", "py:ok", "py:fail", "pyl:ok", "pyl:fail", "d:keyword", "d:compare", "d:math", "forced"]
+    all_branches = ["o:ok", "o:fail-ros", "py:ok", "py:fail", "pyl:ok", "pyl:fail", "d:keyword", "d:compare", "d:math", "d:tool", "forced", "dg:text:ok", "dg:text:fail", "cdg:returned"]
     assumptions = [
         "Python's semantics of operators, calls and truthiness is the environment: tracer objects script it for the "
         "orchestration check, the real interpreter (restricted eval over the same allow-listed names) supplies it for "
@@ -88,11 +88,39 @@ class C02(Prop):
         return [{"id": "E1", "facts_changed": bool(changed)}]
 
     # --- generation ------------------------------------------------------------------------------------------
+    TOOLS = [("ident", []), ("tool1", [])]
+
+    def _tool_text(self, rng, depth):
+        """a tool call whose arguments are allowed-subset expressions (nested allow-listed calls with keywords)"""
+        def arg():
+            for _try in range(6):
+                e = mito.gen_concrete(rng, depth, self.fn_names, self.const_names)
+                if mito.cheap(e):
+                    return e
+            return "1"
+        args = [arg() for _ in range(rng.choice([0, 1, 1, 2]))]
+        kws = [f"{n}={arg()}" for n in rng.sample(["k", "base", "x"], rng.choice([0, 0, 1, 2]))]
+        if kws and rng.random() < 0.08:
+            kws.append(f"{kws[0].split('=')[0]}={arg()}")
+        return f"{rng.choice(['ident', 'ident', 'tool1'])}({', '.join(args + kws)})"
+
     def _case(self, rng, depth):
-        lines = mito.header(rng, self.facts, silent=True, ros=(1000, 1))
+        lines = mito.header(rng, self.facts, tools=self.TOOLS, silent=True, ros=(1000, 1))
         for _ in range(rng.choice([6, 8, 10])):
             k = rng.random()
-            if k < 0.40:
+            if k < 0.08:
+                lines.append(mito.cmet_line(rng.choice(["tool", "auto"]), self._tool_text(rng, rng.choice([1, 2]))))
+            elif k < 0.16:
+                for _try in range(5):
+                    e = mito.gen_concrete(rng, rng.choice([1, 2, 3]), self.fn_names, self.const_names)
+                    if mito.cheap(e):
+                        lines.append(mito.cdg_line(e, False))
+                        break
+            elif k < 0.20:
+                src = mito.gen_tracer(rng, depth, "any", True)
+                lines.append(mito.dg_line(src))
+                lines.append(mito.pyev_line(src))
+            elif k < 0.40:
                 src = mito.gen_tracer(rng, depth, "any", True)
                 lines.append(mito.met_line("math", src))
                 lines.append(mito.pyev_line(src))
@@ -186,6 +214,29 @@ class C02(Prop):
             cases.append({"lines": lines, "note": "history (concrete)"})
         spaces.append({"name": "texts with bare true/false x pathway orders (logic-math-logic, math-logic-math, ...) "
                                "x repeated x same/fresh engine", "cases": cases})
+        # the tool pathway's argument sub-expressions, and the legacy entry point, against Python
+        cases = []
+        TOOLTEXTS = ["ident(round(2.567, ndigits=2, ndigits=0))", "ident(round(2.567, ndigits=2))", "ident(k=1, k=2)",
+                     "ident(1, k=int('11', base=2))", "ident(0 or 5, 1 if 0 else 2)", "ident((0 or 5) + 1, k=not 0)",
+                     "ident('true' == '1', len('False'))", "ident(pi(), 1)", "ident(max([1, 2], key=abs), k=min(3, 4))",
+                     "ident()", "ident(1 < 2 < 3, x=2 ** 10)", "ident(k=round(1.5), base=round(2.5), k=3)",
+                     "tool1(ident(1))", "ident(abs(-1), abs(k=1, k=2))", "ident(1 if 1 else abs(k=1, k=2))",
+                     "ident(10 ** 400 * 1.5)", "ident(2.0 ** 5000, 1)", "ident(1/0)", "ident(zz)", "ident(true)",
+                     "ident([1, (2, 3)], ('a',))", "ident(sum([1, 2], start=1), k=float('inf'))"]
+        lines = mito.header(rng, self.facts, tools=self.TOOLS, silent=True, ros=(1000, 1))
+        for src in TOOLTEXTS:
+            lines += [mito.cmet_line("tool", src), mito.cmet_line("auto", src)]
+        cases.append({"lines": lines, "note": "tool-pathway arguments"})
+        LEGACY = ["5 if 2 > 1 else 7", "0 or 5", "'<' * 3", "1 < 2", "not 0", "true", "'true'", "2 + 2", "7 / 2", "7 // 2",
+                  "round(2.567, ndigits=1)", "[1, 2] + [3]", "(1, 'a')", "'a' + 'b'", "2 ** 0.5", "-0.0", "1e22", "1e16",
+                  "float('nan')", "inf", "1/0", "zz", "pi()", "10**5000", "10**4299 > 1", "max(3, 4) == 4", "1 and 2",
+                  "0 and 1/0", "'x' if '' else 'y'", "len('true and false')", "abs(-3) >= 3", " 1", "1 ", "1 != 1",
+                  "round(1.234, ndigits=1, ndigits=2)", "None", "True", "(2 > 1) + 1", "[1 < 2]", "'1 < 2'"]
+        lines = mito.header(rng, self.facts, silent=True)
+        for src in LEGACY:
+            lines.append(mito.cdg_line(src, src == "10**5000"))
+        cases.append({"lines": lines, "note": "legacy entry point values"})
+        spaces.append({"name": "tool-pathway argument expressions and digest_glucose / agent texts vs Python", "cases": cases})
         # every allow-listed name with concrete arguments; every operator on concrete operand pairs
         cases, lines = [], None
         srcs = []
@@ -243,9 +294,38 @@ class C02(Prop):
             if o.startswith(("hang", "crash", "raised", "worker-error")):
                 out.append(Violation("engine_answers", "a result", o, i))
                 continue
-            if t[0] == "cmet":
+            if t[0] == "cdg":
                 x = x or {}
-                if x.get("pathway") not in ("math", "logic") or "ref" not in x:
+                src = mito.unhexs(t[2])
+                txt, ref = x.get("text"), x.get("ref_text")
+                if txt is None or "ref_text" not in x:
+                    continue
+                if x.get("text_ok"):
+                    if ref is None:
+                        out.append(Violation("python_raises_engine_fails", f"the failure text (Python: {x.get('ref_raise')})",
+                                             "".join(map(chr, txt))[:80], i))
+                    elif txt != ref:
+                        out.append(Violation("value_equals_python", "digest_glucose = str(Python's value): "
+                                             + "".join(map(chr, ref))[:80], "".join(map(chr, txt))[:80], i))
+                at = x.get("agent_text")
+                if at is not None and src == src.strip() and "\n" not in src \
+                        and not "".join(map(chr, at)).startswith("Metabolic Failure"):
+                    if ref is None:
+                        out.append(Violation("python_raises_engine_fails", "agent reports the failure text",
+                                             "".join(map(chr, at))[:80], i))
+                    elif at != ref:
+                        out.append(Violation("value_equals_python", "agent 'calculate' = str(Python's value): "
+                                             + "".join(map(chr, ref))[:80], "".join(map(chr, at))[:80], i))
+            elif t[0] == "dg":
+                ref = py.get(t[3])
+                if ref is not None and o.startswith("text:ok"):
+                    if not ref.startswith("ok:"):
+                        out.append(Violation("python_raises_engine_fails", "the failure text (Python raises)", o[:120], i))
+                    elif dedupe_truthy(ref.split(" ")[1]) != dedupe_truthy(o.split(" ")[2]):
+                        out.append(Violation("nothing_dropped", ref.split(" ")[1][:200], o.split(" ")[2][:200], i))
+            elif t[0] == "cmet":
+                x = x or {}
+                if x.get("pathway") not in ("math", "logic", "tool") or "ref" not in x:
                     continue
                 if x.get("success"):
                     if x.get("ref") is None:
